@@ -1,5 +1,6 @@
 SPECIFICATION Spec
 CONSTANTS
+  Full = TRUE
   BugH13 = TRUE
 INVARIANTS PropertyHoldsExceptH13
 CHECK_DEADLOCK FALSE
